@@ -11,11 +11,12 @@ git -C /repo worktree add --detach $wt HEAD >/dev/null 2>&1 || exit 2
 demo=$(ls $src/${L}_demo/*_test.go | head -1)
 pkgdir=$(grep -o 'pkg/[a-z0-9/]*' $src/${L}_demo/README | head -1); pkgdir=${pkgdir%/}
 runpat=$(grep -o '\-run [A-Za-z0-9_]*' $src/${L}_demo/README | head -1 | cut -d' ' -f2)
+TAGS=""; grep -q -- '-tags verif' $src/${L}_demo/README && TAGS="-tags verif"
 cp $demo $wt/$pkgdir/
-( cd $wt && go test -vet=off -count=1 -run "$runpat" ./$pkgdir/ > /tmp/confirm-$ID-$k.without 2>&1 ); r_without=$?
+( cd $wt && go test $TAGS -vet=off -count=1 -run "$runpat" ./$pkgdir/ > /tmp/confirm-$ID-$k.without 2>&1 ); r_without=$?
 if ! git -C $wt apply $src/$L.diff; then echo "patch does not apply"; git -C /repo worktree remove --force $wt; exit 2; fi
 ( cd $wt && go build ./... > /tmp/confirm-$ID-$k.build 2>&1 ); r_build=$?
-( cd $wt && go test -vet=off -count=1 -run "$runpat" ./$pkgdir/ > /tmp/confirm-$ID-$k.with 2>&1 ); r_with=$?
+( cd $wt && go test $TAGS -vet=off -count=1 -run "$runpat" ./$pkgdir/ > /tmp/confirm-$ID-$k.with 2>&1 ); r_with=$?
 rm $wt/$pkgdir/$(basename $demo)
 ( cd $wt && go test -vet=off -count=1 ./... > /tmp/confirm-$ID-$k.suite 2>&1 ); r_suite=$?
 git -C /repo worktree remove --force $wt
